@@ -112,7 +112,10 @@ RisStep ==
 \* C13, binding of the batch coefficients: the coefficients drawn for two batches that differ in ANY input (a key, a
 \* message, R or S of one entry) must differ, they are non-zero 128-bit values, and a repeated call draws the same ones.
 \* The previous batch's coefficients are remembered in the register "__zs".
-ZsOK(zs) == \A i \in 1..Len(zs) : ~BIsZero(zs[i]) /\ BIsZero(SubSeq(zs[i], (LEN \div 2) + 1, LEN))
+\* non-zero 128-bit values, pairwise distinct (independent draws: a collision has probability 2^-128; one shared coefficient
+\* would let errors in different entries cancel)
+ZsOK(zs) == /\ \A i \in 1..Len(zs) : ~BIsZero(zs[i]) /\ BIsZero(SubSeq(zs[i], (LEN \div 2) + 1, LEN))
+            /\ \A i, j \in 1..Len(zs) : i # j => zs[i] # zs[j]
 SigOps == {"rng.scalar", "rng.signing_key", "sig.keygen", "sig.from_keypair_bytes", "sig.sk_from_slice", "sig.sign", "sig.sign_expanded", "sig.sign_prehashed",
            "sig.verify", "sig.verify_batch"}
 SigJudge(e) ==
@@ -174,7 +177,7 @@ SigJudge(e) ==
           ELSE IF ~lensok THEN <<o.key_ok /\ ~o.ok /\ ~o.again, "length mismatch must be Err">>
           ELSE IF Has(e, "bind") /\ Has(o, "zs") /\ o.zs # <<>> /\ "__zs" \in DOMAIN regs /\ ~(\A i \in 1..Len(o.zs) : i <= Len(regs["__zs"].zs) => o.zs[i] # regs["__zs"].zs[i])
                THEN <<FALSE, "batch coefficients are not bound to the input that changed">>
-          ELSE IF Has(o, "zs") /\ o.zs # <<>> /\ ~(ZsOK(o.zs) /\ o.zs = o.zs_again) THEN <<FALSE, "batch coefficients zero / too wide / not deterministic">>
+          ELSE IF Has(o, "zs") /\ o.zs # <<>> /\ ~(ZsOK(o.zs) /\ o.zs = o.zs_again) THEN <<FALSE, "batch coefficients zero / too wide / repeated / not deterministic">>
           ELSE IF BatchMustErr(used) THEN <<o.key_ok /\ ~o.ok /\ ~o.again, "must be Err">>
           ELSE IF BatchInDomain(used) THEN
                LET x == BatchAllValid(used) IN <<o.key_ok /\ o.ok = x /\ o.again = x, x>>
